@@ -114,9 +114,10 @@ Proof. exact let_statement_simulates. Qed.
    spelling: the reference appends one output record, the model pushes one
    Print record with the same text behind any warnings; stores and cursor as
    for the assignment; or both fail with the same error kind *)
-Theorem C03_print_statement_simulates : forall s toks items mitems ts rest i p after li st d,
+Theorem C03_print_statement_simulates : forall s toks items mitems ts rest i p after li st d hd,
   fst (cur_tokens s) = Ok toks -> enable_tracing s = false ->
-  skipn i toks = TPrint :: ts ++ rest ->
+  hd = TPrint \/ hd = TQuestionMark ->
+  skipn i toks = hd :: ts ++ rest ->
   tr_items items = Some mitems -> IRenders rest mitems ts ->
   Nat.eqb d max_nesting = false -> S d + idepth mitems < max_nesting ->
   same_store st s ->
